@@ -46,4 +46,4 @@ def valid_variant(run, gc, motifs, only_last):
     )
 
 
-CONTRACTS = CONTRACTS + [valid_variant(r, g, m, o) for r in (False, True) for g in (False, True) for m in (None, 0, 1, 2) for o in (False, True)]
+CONTRACTS = CONTRACTS + [valid_variant(r, g, m, o) for r in (False, True) for g in (False, True) for m in (None, 0, 1, 2, 3) for o in (False, True)]
